@@ -706,6 +706,9 @@ func (vm *VirtualMachine) eval(ctx context.Context) error {
 				obj, _ = iter.Entry()
 			}
 			if !ok {
+				if err := ctx.Err(); err != nil {
+					return err // the iteration ended because the context is done
+				}
 				vm.ip = base + int(jumpAmount)
 			} else {
 				vm.push(iter)
